@@ -8,6 +8,40 @@ import (
 func init() {
 	builders["C14"] = specC14
 	builders["C13"] = specC13
+	builders["C15"] = specC15
+}
+
+func specC15(l *Loaded, tier string, seed int64) (*Spec, error) {
+	var jobs []*Job
+	k, kr := 4, 4
+	if tier == "thorough" {
+		k, kr = 5, 6
+	}
+	si := strconv.Itoa
+	for _, rig := range [][2]string{{"map", "1"}, {"rat", "10"}} {
+		for _, order := range []string{"any", "program"} {
+			for op0 := 0; op0 < 4; op0++ {
+				jobs = append(jobs, &Job{Pkg: "risc", Fn: "VerifC15", Key: fmt.Sprintf("%s|%s-order|op0=%d", rig[0], order, op0), Choices: []int{op0},
+					Params: map[string]string{"rig": rig[0], "slots": rig[1], "k": si(k), "order": order}, MaxPaths: 3_000_000,
+					Note: "history of k operations among tagged write / tagged read / commit / rollback over two registers; values and tags symbolic"})
+			}
+		}
+	}
+	for _, ring := range []int{2, 3} {
+		for op0 := 0; op0 < 4; op0++ {
+			jobs = append(jobs, &Job{Pkg: "proc/comp", Fn: "VerifC15RAT", Key: fmt.Sprintf("ring%d|op0=%d", ring, op0), Choices: []int{0, op0},
+				Params: map[string]string{"ring": si(ring), "k": si(kr)}, MaxPaths: 3_000_000})
+		}
+	}
+	return &Spec{Jobs: jobs,
+		Rule: "bounded-exhaustive histories (forks on vp.Choice and on every tag comparison) over the real Context transaction map / rename table and the bare comp.RAT with rings 2 and 3; values and tags are SMT variables, expected values come from a list of tagged writes",
+		Bounds: map[string]interface{}{"history_length": k, "ring_history_length": kr, "registers": 2, "rings": "10 (inside Context), 2 and 3 (bare RAT)", "tags": "any int32 in (0, 2^20), pairwise distinct per register"},
+		Assumptions: []string{"tags are positive (0 means 'no tag' in registerRead)", "one instruction writes a register once (tags of pending writes to one register are distinct)",
+			"the strong clauses are asserted only while the uncommitted writes to one register do not exceed the slots (1 for the map, ring length for the table)",
+			"beyond the slots, 'commit and plain reads return the youngest value' is asserted for program-order arrival only",
+			"a tagged read may return the committed value or any pending write with tag <= t (the statement only forbids younger values)"},
+		Outside: []string{"histories longer than k", "more than two registers", "forwarded operands (C04)"},
+	}, nil
 }
 
 func specC13(l *Loaded, tier string, seed int64) (*Spec, error) {
